@@ -40,7 +40,8 @@ func ParseDateTime(value string) (DateTime, error) {
 	value = strings.TrimPrefix(value, "@")
 	for _, l := range dateTimeLayouts {
 		if t, err = time.Parse(l, value); err == nil {
-			return DateTime{t, layout(l)}, nil
+			t, l := keepFraction(t, layout(l))
+			return DateTime{t, l}, nil
 		}
 	}
 	return DateTime{}, fmt.Errorf("unable to parse DateTime '%s': %w", value, err)
